@@ -276,6 +276,31 @@ Definition lexical_order (a b : string) : string * string := if sltb a b then (a
 Definition record_path_gen (rdir root name : string) : string := path_secure (pjoin root [rdir; name]).
 Definition record_path (root name : string) : string := record_path_gen Tbinary.records_dir root name.
 
+(* ------------------------------------------------------------------ normalised names *)
+(* the domain on which the location clauses of the property are stated: relative POSIX paths whose
+   components are non-empty and neither "." nor "..", without backslash *)
+Fixpoint no_slashb (s : string) : bool :=
+  match s with EmptyString => true | String a s' => negb (Ascii.eqb a slash) && no_slashb s' end.
+Fixpoint no_bsb (s : string) : bool :=
+  match s with EmptyString => true | String a s' => negb (Ascii.eqb a bslash) && no_bsb s' end.
+Definition comp_ok (c : string) : bool :=
+  negb (String.eqb c "") && negb (String.eqb c ".") && negb (String.eqb c "..").
+Definition good_rel (s : string) : bool := forallb comp_ok (split_slash s) && no_bsb s.
+(* a dataset root: normalised, relative or absolute *)
+Definition good_root (s : string) : bool :=
+  match s with
+  | EmptyString => false
+  | String a r => if Ascii.eqb a slash then good_rel r else good_rel s
+  end.
+(* a file extension / pair separator: no separator character, at least two characters *)
+Definition good_ext (e : string) : bool := no_slashb e && no_bsb e && (2 <=? String.length e)%nat.
+(* s ends with e *)
+Fixpoint suffixb (e s : string) : bool :=
+  String.eqb e s || match s with EmptyString => false | String _ s' => suffixb e s' end.
+(* no directory component of the image name ends with the pair separator *)
+Definition dirs_free_of (sep name : string) : bool :=
+  forallb (fun c => negb (suffixb sep c)) (removelast (split_slash name)).
+
 (* ------------------------------------------------------------------ correspondence *)
 Inductive wobs := WOk | WRefused | WIndexErr | WOther.
 Inductive robs :=
